@@ -285,14 +285,24 @@ theorem gen_four_tables_registered :
            ("defcon.groups.kerningGlyphToSide2Group", "glyphToKerningSide2GroupsRepresentationFactory")],
       p ∈ Gen.KernTables.groupsFactories.map (fun e => (e.1, e.2.1)) := by decide
 
-/-- every table registered on `Groups` is destroyed by the change notification and by no other
-notification a `Groups` object posts (whether the source writes a string or a collection); the change
-notification is `Groups.Changed`; `Kerning` registers no representation -/
+/-- every table registered on `Groups` is destroyed by EVERY notification a `Groups` object posts once its contents
+have changed (set-item, delete-item, clear, update and the change notification itself, whether the source writes a
+string or a collection) - so the first announcement of an edit already evicts, and an observer called back at any of
+them is not served a table built from the old contents (finding F74: the tables used to live until `Groups.Changed`,
+the LAST notification of an edit); the change notification is `Groups.Changed`; `Kerning` registers no
+representation.  The model's `evict` (a group edit destroys all four tables, kerning edits destroy nothing) is
+this registration data at the granularity of whole edits. -/
 theorem gen_eviction_as_modelled :
-    (∀ e ∈ Gen.KernTables.groupsFactories, ∀ n ∈ Gen.KernTables.groupsPosts,
-        destroys e.2.2 n = decide (n = "Groups.Changed")) ∧
+    (∀ e ∈ Gen.KernTables.groupsFactories, ∀ n ∈ Gen.KernTables.groupsPosts, destroys e.2.2 n = true) ∧
     Gen.KernTables.groupsPosts.head? = some "Groups.Changed" ∧
+    (∀ n ∈ ["Groups.GroupSet", "Groups.GroupDeleted", "Groups.Cleared", "Groups.Updated"], n ∈ Gen.KernTables.groupsPosts) ∧
     Gen.KernTables.kerningFactories = [] := by decide
+
+/-- the substring reading of a parenthesised string (`("Groups.Changed")`, as the source used to write it) does NOT
+have that property: `Groups.GroupSet` is not destructive under it - the witness of F74 -/
+theorem string_registration_misses_set_item :
+    destroys (.str "Groups.Changed") "Groups.GroupSet" = false ∧ destroys (.str "Groups.Changed") "Groups.Changed" = true := by
+  decide
 
 /-! ## Non-vacuity -/
 
